@@ -101,11 +101,42 @@ PROPS = {
                        'The partial-write / slow-reader conservation is covered by the buffer model (C19).',
         'assumptions': ['kernel/TCP deliver what was written', 'AUTH and READONLY both succeed on a backend connection (wf_backend handshake assumption)'],
     },
+    'C04': {
+        'props': 'Props/C04.v',
+        'suites': [{'name': 'route', 'oracles': {'route': 'o_route'}, 'trivial_tags': ['live-0'], 'vm_sample': 40}],
+        'rule': 'listenServer.route for every command type of the table on fixed 0/2/3-replica sets (4 random seeds each, replica reads on/off) and on random sets of 0-4 replicas '
+                'with random pool presence / ban flag / ban-lift time on both sides of now; rand.Intn made reproducible by rand.Seed and its value for every possible argument passed to '
+                'the model as oracle; OnSOpened for passwords of several lengths x master/replica. distinct = distinct (set, type, seed); non-trivial = at least one live replica',
+        'explanation': 'Theorems: the node chosen is the master or a live replica of the same set, for every set, type, setting and random value within Intn\'s contract; writes, cursor scans, scripts and '
+                       'everything when replica reads are off go to the master; data theorems over the command table (only read-only commands precede the write marker); handshake bytes are '
+                       'canonical AUTH/READONLY requests. That a fragment is enqueued on a connection of the routed address, and the handshake precedes the first request on the wire, is covered with the event-loop model.',
+        'assumptions': ['the slot table lookup (Slots2Node) and pool map are inputs of route; their construction is C14', 'rand.Intn(n) returns a value in [0,n)'],
+    },
+    'C20': {
+        'props': 'Props/C20.v',
+        'suites': [{'name': 'route', 'oracles': {'route': 'o_route'}, 'trivial_tags': ['live-0'], 'vm_sample': 40}],
+        'rule': 'as C04; the oracle checks that the node chosen for a read is exactly the k-th healthy replica for the recorded k = rand.Intn(|healthy|)',
+        'explanation': 'Theorems: the choice is the k-th live replica (identity on the live list, hence every live replica is reachable and the map is injective); writes unaffected. '
+                       'One genuine defect repaired (choice made inside the loop: only the first healthy replica ever served reads). Uniformity of math/rand is trusted.',
+        'assumptions': ['uniformity of math/rand', 'the 5-second health monitor goroutine is outside the model (only its effect on the ban flags is state)'],
+    },
 }
 
 NOT_YET = {}
 
 MANIFEST_TEXT = {
+    'C04': {
+        'text': 'Coq theorems: route returns the master or a live replica of the owning set for all sets/types/settings/random values; role rules; data theorems over the command table '
+                'regenerated from source; handshake bytes. Tied to listenServer.route and OnSOpened by differential run with recorded rand.Intn values.',
+        'note': 'Trusted: Coq kernel, translator, extraction, harness + hook VerifRoute; the read-only command list in Spec/RouteSpec.v is a reviewed literal.',
+        'technique': 'Coq proof + vm_compute over the regenerated command table + differential correspondence with recorded randomness',
+    },
+    'C20': {
+        'text': 'Coq theorems: for reads the chosen node is the k-th live replica, so every live replica is chosen for some k < |live| and the map is injective; writes go to the master for every k. '
+                'Differential run with recorded rand.Intn; the spec oracle demands the k-th healthy replica.',
+        'note': 'Trusted as C04; statistical uniformity of math/rand is not proved.',
+        'technique': 'Coq proof (support and injectivity of the choice) + differential correspondence with recorded randomness',
+    },
     'C07': {
         'text': 'Coq theorems: for any slot function, key list, store and any permutation of the fragment replies, the merged MGET/DEL/MSET reply is as specified, nothing is '
                 'delivered early and the result is order-independent. Tied to the Go merge code by running real requests through the production event loop with all release orders.',
